@@ -13,6 +13,7 @@ inductive Item where
   | const (b : Bytes)                         -- a bytes literal
   | lenPlus (k : Nat) (field : String) (width : Nat)  -- `(k + len(<field>)).to_bytes(width, byteorder="little")`
   | countOf (field : String) (width : Nat)    -- `len(self.<list field>).to_bytes(width, byteorder="little")`: how many elements
+  | zerosNegMod (k : Nat) (field : String) (m : Nat)  -- `b"\x00" * (-(k + len(<field>)) % m)`
   deriving DecidableEq, Repr
 
 structure Env where
@@ -47,5 +48,9 @@ def pack (env : Env) : List Item → R Bytes
     let a ← Py.toBytesLE (env.counts f : Int) w
     let b ← pack env rest
     pure (a ++ b)
+  | .zerosNegMod k f m :: rest => do
+    let x ← env.bytes f
+    let b ← pack env rest
+    pure (Py.zeros (Py.negMod (k + x.length) m) ++ b)
 
 end DpapiNg.Layout
